@@ -75,7 +75,7 @@ func (p *progSpec) refUnmarshalFails(b bodySpec) [3]bool {
 func (p *progSpec) allTouts() []toutSpec {
 	var o []toutSpec
 	for _, a := range p.Attempts {
-		o = append(o, a.T)
+		o = append(o, a.T, a.T2)
 		for _, ms := range [][]mwSpec{a.Cli, a.Req} {
 			for _, x := range ms {
 				if x.Resend != nil {
@@ -159,6 +159,8 @@ type execState struct {
 	hookResp  *req.Response
 	hookErr   error
 	stubFault string
+	lastT     *toutSpec // the answer served last (the output writer's script)
+	out       bytes.Buffer
 	cancel    context.CancelFunc
 	ctxCutAt  int // attempt in which the stub cancelled the context (-1: never)
 	sleepCut  bool
@@ -216,8 +218,17 @@ func (s *execState) transport(hr *http.Request) (*http.Response, error) {
 	s.mu.Unlock()
 	at := s.p.Attempts[a]
 	t := at.T
+	twice := false
+	for _, w := range at.Wraps {
+		if w.Kind == "twice" {
+			twice = true
+		}
+	}
 	if k == 0 {
 		s.ev("send", 0)
+	} else if twice {
+		s.ev("send", 0)
+		t = at.T2
 	} else {
 		s.ev("resend", 0)
 		var rs *toutSpec
@@ -236,6 +247,8 @@ func (s *execState) transport(hr *http.Request) (*http.Response, error) {
 		}
 		t = *rs
 	}
+	tt := t
+	s.lastT = &tt
 	if k == 0 && at.Ctx != "" {
 		s.cancel()
 		s.ctxCutAt = a
@@ -273,6 +286,14 @@ func (s *execState) wrapFunc(i int) req.RoundTripWrapperFunc {
 			defer s.ev("wout", i)
 			w := s.p.Attempts[s.attempt()].Wraps[i]
 			switch w.Kind {
+			case "fab":
+				h := http.Header{}
+				h.Set("Content-Type", "application/json")
+				return &req.Response{Request: r, Response: &http.Response{StatusCode: w.Status, Status: fmt.Sprint(w.Status), Proto: "HTTP/1.1", ProtoMajor: 1, ProtoMinor: 1,
+					Header: h, Body: io.NopCloser(strings.NewReader(fabBody)), ContentLength: int64(len(fabBody))}}, nil
+			case "twice":
+				rt.RoundTrip(r)
+				return rt.RoundTrip(r)
 			case "short":
 				var resp *req.Response
 				if !w.NilResp {
@@ -302,6 +323,18 @@ func (s *execState) wrapFunc(i int) req.RoundTripWrapperFunc {
 			return rt.RoundTrip(r)
 		}
 	}
+}
+
+const fabBody = `{"a":3,"msg":"made up","code":3}`
+
+// the download target: fails when the body being written is scripted to
+type scriptWriter struct{ st *execState }
+
+func (w *scriptWriter) Write(p []byte) (int, error) {
+	if t := w.st.lastT; t != nil && t.B.WriteErr != 0 {
+		return 0, mkErr(t.B.WriteErr)
+	}
+	return w.st.out.Write(p)
 }
 
 type marshalBody struct {
@@ -472,6 +505,9 @@ func execute(p *progSpec, origin *realOrigin) (o obsT, res *okT, er *errT) {
 	if p.Unreplayable {
 		rq.SetBody(strings.NewReader("unreplayable"))
 	}
+	if p.Save {
+		rq.SetOutput(&scriptWriter{st})
+	}
 	for i := 0; i < nReq; i++ {
 		if p.Attempts[0].Req[i].Digest {
 			rq.SetDigestAuth("user", "pass")
@@ -557,6 +593,7 @@ func execute(p *progSpec, origin *realOrigin) (o obsT, res *okT, er *errT) {
 		return
 	}
 	o.Log = append([]logEv{}, st.log...)
+	o.Output = st.out.String()
 	if p.ReqErr == 0 {
 		o.Iters = rq.RetryAttempt + 1
 		if st.sleepCut { // RetryAttempt was incremented, the next iteration never started
